@@ -405,6 +405,7 @@ def main():
         hist = []
         for op in script:
             k = op[0]
+            before = [plain(x) for x in roots]
             if k == "set":
                 _, h, path, fk, name = op
                 obj = BaseType(name, np.array(1)) if fk == "B" else StructureType(name)
@@ -424,7 +425,16 @@ def main():
                 _, h, path = op
                 roots.append(copy.copy(node_at(roots[h], path)))
                 opc = "(OCopy %d %s)" % (h, clist(path, cchars))
+            elif k == "attr":
+                _, h, path, key, v = op
+                node_at(roots[h], path).attributes[key] = v
+                opc = "(OAttr %d %s %s %d%%N)" % (h, clist(path, cchars), cchars(key), v)
             hist.append("(%s, %s)" % (opc, clist(roots, lambda o: snapshot(o, tok))))
+            if k in ("attr", "set"):
+                for i, (b, a) in enumerate(zip(before, [plain(x) for x in roots])):
+                    if i != op[1] and b != a and len(direct) < 20:
+                        direct.append({"law": "editing one object changed another", "edited_handle": op[1], "changed_handle": i,
+                                       "op": opc, "corpus": repr(script)[:400]})
             for i, x in enumerate(roots):
                 for e in invariant_errors(x)[:2]:
                     if len(direct) < 20:
@@ -443,6 +453,10 @@ def main():
         [("set", 0, [], "S", "s"), ("set", 0, ["s"], "B", "a"), ("set", 0, ["s"], "B", "b"), ("set", 0, ["s"], "B", "c"),
          ("select", 0, ["s"], ["c", "a", "b"]), ("copy", 2, []), ("set", 0, [], "S", "t"), ("move", 0, ["t"], 2), ("copy", 0, []),
          ("copy", 0, ["t", "s"]), ("select", 1, [], [])],
+        # attributes on the ROOT of a dataset before it is copied / tuple-selected, then attribute edits on either side
+        [("set", 0, [], "B", "x"), ("set", 0, [], "S", "s"), ("set", 0, ["s"], "B", "a"), ("attr", 0, [], "units", 7), ("copy", 0, []),
+         ("attr", 2, [], "long name", 3), ("attr", 0, [], "x", 9), ("select", 0, [], ["s"]), ("attr", 3, [], "units", 11),
+         ("attr", 0, [], "units", 12), ("attr", 1, [], "units", 5), ("copy", 1, []), ("attr", 4, [], "x", 6), ("attr", 1, [], "units", 8)],
     ]
     for sc in corpus:
         try:
